@@ -334,3 +334,70 @@ Section EofStores.
       rewrite (copy_buffer_upto_eof H comb _ _ _ _ _ _ _ _ Ec). reflexivity.
   Qed.
 End EofStores.
+
+(* the other two transition systems, for every reader script (EOF not final) *)
+From Oras Require Import Proofs.VerifyConc Proofs.VerifyNames Proofs.VerifyFileConc.
+
+Section EofConc2.
+  Variable H : str -> str -> str.
+
+  (* cas.Memory without LimitedStorage: what a successful LoadOrStore stores is exactly what
+     the thread's reader delivered before its first EOF *)
+  Lemma memory_concurrent_upto m ts sched st :
+    mem_reach H m -> Forall (fun t => m_pc t = MStart /\ m_lim t = None) ts ->
+    mrun H (mkM m ts) sched = Some st ->
+    forall i t buf, nth_error (ms_thr st) i = Some t -> m_pc t = MRead None buf -> buf = upto_eof (m_evs t).
+  Proof.
+    intros R F E.
+    (* invariant: every thread without a limit that has read successfully holds upto_eof *)
+    assert (Inv : forall sched st0 st1,
+              Forall (fun t => m_lim t = None /\ forall buf, m_pc t = MRead None buf -> buf = upto_eof (m_evs t)) (ms_thr st0) ->
+              mrun H st0 sched = Some st1 ->
+              Forall (fun t => m_lim t = None /\ forall buf, m_pc t = MRead None buf -> buf = upto_eof (m_evs t)) (ms_thr st1)).
+    { induction sched0 as [|i r IH]; intros st0 st1 F0; simpl.
+      - intro X; inversion X; subst; auto.
+      - destruct (mstep H st0 i) as [st2|] eqn:Es; [|discriminate]. apply IH.
+        unfold mstep in Es. destruct (nth_error (ms_thr st0) i) as [t|] eqn:Ei; [|discriminate].
+        pose proof (Forall_nth_error _ _ _ _ F0 Ei) as [Lt Pt].
+        assert (Keep : forall p, (forall buf, p = MRead None buf -> buf = upto_eof (m_evs t)) ->
+                  Forall (fun t => m_lim t = None /\ forall buf, m_pc t = MRead None buf -> buf = upto_eof (m_evs t))
+                         (set_nth (ms_thr st0) i (with_mpc t p))).
+        { intros p Hp. apply Forall_set_nth; auto. }
+        destruct (m_pc t) as [|[e|] buf|r0] eqn:Epc; [| | |discriminate].
+        + rewrite Lt in Es.
+          destruct (mem_get (ms_mem st0) (m_d t)).
+          * inversion Es; subst. apply Keep. intros b X; discriminate.
+          * destruct (read_all H (m_comb t) true (m_fuel t) (mkBase (m_evs t) None) (d_dg (m_d t)) (d_sz (m_d t)))
+              as [[e buf] v] eqn:Er.
+            inversion Es; subst. apply Keep. intros b X. inversion X; subst.
+            symmetry. eapply read_all_upto_eof; eauto.
+        + inversion Es; subst. apply Keep. intros b X; discriminate.
+        + destruct (mem_get (ms_mem st0) (m_d t)); inversion Es; subst; apply Keep; intros b X; discriminate. }
+    intros i t buf Ei Ep.
+    assert (F0 : Forall (fun t => m_lim t = None /\ forall buf, m_pc t = MRead None buf -> buf = upto_eof (m_evs t)) ts).
+    { eapply Forall_impl; [|exact F]. intros t0 [A B]. split; auto. intros b X. congruence. }
+    pose proof (Inv sched (mkM m ts) st F0 E) as F1. simpl in F1.
+    destruct (Forall_nth_error _ _ _ _ F1 Ei) as [_ P]. apply P. exact Ep.
+  Qed.
+
+  (* named file-store pushes: what becomes visible under the name is exactly what the
+     reader delivered before its first EOF *)
+  Lemma file_concurrent_upto (U : list str)
+        (U_inj : forall a c, In a U -> In c U -> resolve_name a = resolve_name c -> a = c) s ts sched st :
+    file_reach_names H s -> (forall n, name_in n (f_names s) = true -> In n U) ->
+    Forall (fun t => ft_pc t = FStart /\ In (ft_name t) U) ts ->
+    frun H (mkFC s ts) sched = Some st ->
+    forall i st' t out path, fstep H st i = Some st' -> nth_error (fc_thr st) i = Some t ->
+      ft_pc t = FWrite None out path ->
+      file_fetch (fc_st st') (ft_name t) (ft_d t) = Some (upto_eof (ft_evs t)).
+  Proof.
+    intros R Su F E i st' t out path Es Ei Ep.
+    destruct (file_concurrent H U U_inj s ts sched st R Su F E) as [_ Suc].
+    destruct (Suc i st' t out path Es Ei Ep) as (Ff & _ & _).
+    (* out = upto_eof: the thread's FWrite state records the result of its CopyBuffer *)
+    pose proof (frun_inv H U U_inj sched _ _ (finv_start H U s ts R Su F) E) as (_ & _ & _ & Ft & _).
+    pose proof (Forall_nth_error _ _ _ _ Ft Ei) as [_ Pt]. rewrite Ep in Pt.
+    destruct Pt as (_ & _ & _ & v & Ec).
+    rewrite Ff. f_equal. symmetry. eapply copy_buffer_upto_eof; eauto.
+  Qed.
+End EofConc2.
